@@ -20,7 +20,7 @@ theorem stable_null_zero (env : Env) (fmt : Fmt) (L : Leaves) : ∀ (f : Nat) (t
     | named n =>
       simp only [Stable] at h
       by_cases hl : L.names.contains n = true
-      · simp only [hl, if_true] at h; exact absurd rfl h.2
+      · simp only [hl, if_true] at h; exact absurd rfl h.2.2
       · simp only [hl, if_false] at h
         simp only [zeroVal]
         cases hs : findStruct env.structs n with
@@ -93,7 +93,7 @@ theorem generic_roundtrip_aux (env : Env) (fmt : Fmt) (L : Leaves) (hL : LeafSou
       simp only [Stable] at hs
       by_cases hl : L.names.contains n = true
       · simp only [hl, if_true] at hs
-        exact hL n hl f v hs.1 hs.2
+        exact hL n hl f v hs.1 hs.2.1 hs.2.2
       simp only [hl, if_false] at hs
       simp only [plainB, hl, Bool.false_eq_true, if_false, Bool.and_eq_true] at hp
       obtain ⟨hnc, hrest⟩ := hp
